@@ -884,6 +884,11 @@ impl<TokenIter: Iterator<Item = Result<Token>>> Parser<TokenIter> {
             }
             TokenData::Identifier(symbol) => DatumBody::Symbol(symbol.clone()).locate(location),
             TokenData::Primitive(p) => DatumBody::Primitive(p.clone()).locate(location),
+            // 'datum inside quoted data or a vector literal: ''a, '#(a 'b)
+            TokenData::Quote => {
+                self.advance(1)?;
+                self.parse_quoted()?
+            }
             other => return located_error!(SyntaxError::UnexpectedToken(other.clone()), location),
         })
     }
